@@ -142,7 +142,7 @@ def models(tier):
 
 def stages(tier, rng, only=None):
     sch = ac.PRESET + PROBES + [m for s in (ac.P_UNI1, ac.P_PSE1, ac.P_IND1, ac.P_EXT) for m in ac.multiples(s, ks=(2,))]
-    nm = ["ints", "letters", "collide", "neg", "weird"]
+    nm = ["ints", "letters", "collide", "neg", "weird", "mixed1", "mixed3", "mixedraw"]
     out = [Stage("grid3x2", "Trace_Cost", run_case, lambda: _cases(grids.datasets(3, 2), sch, nm, True), _nt, _init)]
     n_rand = 500 if tier == "quick" else 5000
     sch2 = sch + ac.grid_sample(rng, 12)
@@ -153,6 +153,9 @@ def stages(tier, rng, only=None):
                                         sch), _nt, _init))
     out.append(Stage("larger", "Trace_Cost", run_case,
                      lambda: _cases([ac.larger_dataset(rng) for _ in range(n_rand // 3)], sch2, nm, False), _nt, _init))
+    out.append(Stage("tiny_penalties", "Trace_Cost", run_case,
+                     lambda: _cases(grids.datasets(3, 2)[::3] + [ac.random_dataset(rng, 6, 5) for _ in range(n_rand // 3)],
+                                    ac.TINY + [(B, T, 2 ** 20) for (B, T, _) in ac.PRESET[:3]], nm, False), _nt, _init))
     out.append(Stage("transposed_pairs", "Trace_Cost", run_case,
                      lambda: [{"D": B, "prevD": A, "naming": "ints", "sch": list(sch[k % len(sch)])}
                               for k, (A, B) in enumerate(ac.transposed_pairs())], _nt, _init))
